@@ -851,7 +851,7 @@ class Gen:
             elif nt in ("s_byte_num", "s_word_num") and p.syms == ["u_word_num"]:
                 self.number_cast(p, ["C05", "C01", "C09"])
             elif nt == "jumps_condition":
-                self.jcond(p, ["C06", "C09"])
+                self.jcond(p, ["C06", "C08", "C09"])   # C08: which instruction runs next depends on the jump being taken exactly when it should
             elif nt == "control":
                 self.control(p, ["C09", "C08"])
             elif nt == "string":
